@@ -360,35 +360,41 @@ theorem registered_all (s : State) (hn : (s.ws.map (·.uid)).Nodup) (hwat : s.a.
 
 /-- `manage_watchers` with every registered watcher as in `DatK`: nothing to reap, then the `gen.multi` over the
     `manage_processes` of the watchers in `iter_watchers()` order -/
-theorem manageWatchers_eq_K (rec : Rec) (wt : Waiter) (s : State) (hd : DatK s) (hstp : s.a.stopping = false)
-    (hwat : s.a.watchers = s.ws.map (·.uid)) :
+theorem manageWatchers_eq_K_gen (rec : Rec) (wt : Waiter) (s s1 : State) (hstp : s.a.stopping = false)
+    (hreap : arbReapProcesses s = ((), s1)) (hd1 : DatK s1) (hwat : s1.a.watchers = s1.ws.map (·.uid)) :
     manageWatchers rec wt s =
-      awaitMulti rec ((sortWatchers s.ws true).map fun w => Call.manageProcesses w.uid) (.manageWatchersTail false) wt
-        { s with k := s.k.bump 1 } := by
-  obtain ⟨hb, hk, hn, hall⟩ := hd
+      awaitMulti rec ((sortWatchers s1.ws true).map fun w => Call.manageProcesses w.uid) (.manageWatchersTail false) wt s1 := by
+  obtain ⟨hb, hk, hn, hall⟩ := hd1
   unfold manageWatchers
   simp only [bind, getA]
   erw [if_neg (by simp [hstp])]
-  rw [arbReapProcesses_still s hb hk]
+  rw [hreap]
   simp only
-  have hreg := registered_all { s with k := s.k.bump 1 } hn hwat
-  have hiw : iterWatchers true { s with k := s.k.bump 1 } = ((sortWatchers s.ws true).map (·.uid), { s with k := s.k.bump 1 }) := by
+  have hreg := registered_all s1 hn hwat
+  have hiw : iterWatchers true s1 = ((sortWatchers s1.ws true).map (·.uid), s1) := by
     simp only [iterWatchers, bind, hreg, pure]
   rw [hiw]
   simp only [getS]
   have hgen : ∀ (b : Bool) (cs : List Call), b = false →
-      awaitMulti rec cs (.manageWatchersTail b) wt { s with k := s.k.bump 1 } =
-        awaitMulti rec cs (.manageWatchersTail false) wt { s with k := s.k.bump 1 } := by
+      awaitMulti rec cs (.manageWatchersTail b) wt s1 = awaitMulti rec cs (.manageWatchersTail false) wt s1 := by
     intro b cs hb; rw [hb]
   refine (hgen _ _ ?_).trans ?_
   · apply List.any_eq_false.mpr
     intro u hu
     obtain ⟨w, hw, rfl⟩ := List.mem_map.mp hu
-    have hw' : w ∈ s.ws := (sortWatchers_perm s.ws true).mem_iff.mp hw
-    have hf : List.find? (fun x => decide (x.uid = w.uid)) s.ws = some w := find_uid_of_mem hn hw'
+    have hw' : w ∈ s1.ws := (sortWatchers_perm s1.ws true).mem_iff.mp hw
+    have hf : List.find? (fun x => decide (x.uid = w.uid)) s1.ws = some w := find_uid_of_mem hn hw'
     simp only [hf, (hall w hw').1.onDemand, Bool.false_and, Bool.false_eq_true, not_false_eq_true]
   · rw [List.map_map]
     rfl
+
+theorem manageWatchers_eq_K (rec : Rec) (wt : Waiter) (s : State) (hd : DatK s) (hstp : s.a.stopping = false)
+    (hwat : s.a.watchers = s.ws.map (·.uid)) :
+    manageWatchers rec wt s =
+      awaitMulti rec ((sortWatchers s.ws true).map fun w => Call.manageProcesses w.uid) (.manageWatchersTail false) wt
+        { s with k := s.k.bump 1 } :=
+  manageWatchers_eq_K_gen rec wt s { s with k := s.k.bump 1 } hstp (arbReapProcesses_still s hd.1 hd.2.1)
+    (hd.of_kernel (hd.2.1.bump 1) rfl rfl rfl) hwat
 
 /-- a parked `spawn_processes` loop of one watcher: its slot in the `gen.multi`, the watcher, the frame of
     `manage_processes`' continuation, the frame of the loop, its timer, how many spawns remain -/
@@ -832,57 +838,65 @@ theorem map_arm_pkFrames {i x : Nat} {P : List PK} (hx : ∀ g ∈ pkFrames i P,
   intro g hg
   simp [hx g hg]
 
-/-- **the periodic check with several watchers, at least one of them missing workers**: nothing to reap; every
-    watcher that misses workers spawns its first missing one and parks its `spawn_processes` loop on its own timer;
-    the complete ones are done; the check stays parked with the slot taken; as many timer firings remain as
-    workers were missing -/
-theorem check_parks_K (s : State) (hi : IdleK s) (hd : DatK s) (hle : ∀ w ∈ s.ws, w.pids.length ≤ w.np.toNat)
-    (hmiss : ∃ w ∈ s.ws, w.pids.length < w.np.toNat) :
-    ∃ results P, ParkedK s.ws.length s.nextId results P (step s .check) ∧ DatK (step s .check) ∧
-      Acct [] P (step s .check) ∧ P ≠ [] ∧ toGo P (step s .check) = (s.ws.map missing).sum ∧ Grow s.ws (step s .check).ws := by
+/-- **the periodic check with several watchers, at least one of them missing workers, after whatever
+    `Arbiter.reap_processes` did** (`K O ws1 L1`: the kernel, the `Process` objects, the watcher records — same
+    identities — and the log afterwards): every watcher that misses workers spawns its first missing one and parks its
+    `spawn_processes` loop on its own timer; the complete ones are done; the check stays parked with the slot taken; as
+    many timer firings remain as workers are missing after the reaping -/
+theorem check_parks_K_gen (s : State) (hi : IdleK s) (hb : s.blocked = false)
+    (K : Kernel) (O : List PObj) (ws1 : List Watcher) (L1 : List Obs)
+    (hreap : arbReapProcesses (checkEntry s) = ((), { checkEntry s with k := K, objs := O, ws := ws1, log := L1 }))
+    (hd : DatK { checkEntry s with k := K, objs := O, ws := ws1, log := L1 }) (huids : ws1.map (·.uid) = s.ws.map (·.uid))
+    (hle : ∀ w ∈ ws1, w.pids.length ≤ w.np.toNat) (hmiss : ∃ w ∈ ws1, w.pids.length < w.np.toNat) :
+    ∃ results P, ParkedK ws1.length s.nextId results P (step s .check) ∧ DatK (step s .check) ∧
+      Acct [] P (step s .check) ∧ P ≠ [] ∧ toGo P (step s .check) = (ws1.map missing).sum ∧ Grow ws1 (step s .check).ws := by
   have hd0 := hd
-  obtain ⟨hb, hk, hn, hall⟩ := hd
+  obtain ⟨_, hk, hn, hall⟩ := hd
   obtain ⟨hfr, hsl, htops, hrd, hslot, hls, hstp, hrst, hwat⟩ := hi
   obtain ⟨k, a, objs, ws, frames, sleepers, tops, ready, dv, i, log, blocked⟩ := s
-  simp only at hb hk hn hall hfr hsl htops hrd hslot hls hstp hrst hwat hle hmiss
+  simp only at hb hfr hsl htops hrd hslot hls hstp hrst hwat huids
   subst hb hfr hsl htops hrd
+  simp only [checkEntry] at hreap hd0 hk hn hall
   -- the watchers in `iter_watchers()` order
-  have hperm := sortWatchers_perm ws true
-  have hord_mem : ∀ w ∈ sortWatchers ws true, w ∈ ws := fun w hw => hperm.mem_iff.mp hw
-  have hord_nd : ((sortWatchers ws true).map (·.uid)).Nodup := (hperm.map (·.uid)).nodup_iff.mpr hn
-  have hord_len : (sortWatchers ws true).length = ws.length := hperm.length_eq
-  have hne : (sortWatchers ws true).map (fun w => Call.manageProcesses w.uid) ≠ [] := by
+  have hperm := sortWatchers_perm ws1 true
+  have hord_mem : ∀ w ∈ sortWatchers ws1 true, w ∈ ws1 := fun w hw => hperm.mem_iff.mp hw
+  have hord_nd : ((sortWatchers ws1 true).map (·.uid)).Nodup := (hperm.map (·.uid)).nodup_iff.mpr hn
+  have hord_len : (sortWatchers ws1 true).length = ws1.length := hperm.length_eq
+  have hne : (sortWatchers ws1 true).map (fun w => Call.manageProcesses w.uid) ≠ [] := by
     obtain ⟨w, hw, _⟩ := hmiss
-    have : w ∈ sortWatchers ws true := hperm.mem_iff.mpr hw
+    have : w ∈ sortWatchers ws1 true := hperm.mem_iff.mpr hw
     intro h
     have h2 := congrArg List.length h
     simp only [List.length_map, List.length_nil] at h2
     have := List.length_pos_of_mem this
     omega
   -- the state in which the children of the gen.multi start
-  let S2 : State := ⟨k.beginStep.bump 1, { a with slot := some "manage_watchers" }, objs, ws,
+  let S2 : State := ⟨K, { a with slot := some "manage_watchers" }, O, ws1,
     [{ fid := i + 1, k := .manageWatchersTail false, parent := .top i },
-     { fid := i + 2, k := .multi ws.length [], parent := .frame (i + 1) 0 }], [],
-    [{ tid := i, cbs := [.release] }], [], [], i + 3, log, false⟩
-  have hB2 : Building ws.length i 0 [] [] S2 :=
+     { fid := i + 2, k := .multi ws1.length [], parent := .frame (i + 1) 0 }], [],
+    [{ tid := i, cbs := [.release] }], [], [], i + 3, L1, false⟩
+  have hB2 : Building ws1.length i 0 [] [] S2 :=
     ⟨rfl, rfl, rfl, rfl, rfl, rfl, (fun r hr => by cases hr), Nat.le_refl _, (fun p hp => by cases hp), List.Pairwise.nil, rfl,
       hls, hstp, hrst⟩
-  have hd2 : DatK S2 := ⟨rfl, hk.beginStep.bump 1, hn, hall⟩
-  have hA2 : Acct ((sortWatchers ws true).map (·.uid)) [] S2 := by
+  have hd2 : DatK S2 := ⟨rfl, hk, hn, hall⟩
+  have hA2 : Acct ((sortWatchers ws1 true).map (·.uid)) [] S2 := by
     refine ⟨(fun p hp => by cases hp), (by simp), ?_, (fun p hp => by cases hp)⟩
     intro w hw hnt _
     exfalso
     exact hnt (List.mem_map_of_mem (hperm.mem_iff.mpr hw))
   obtain ⟨results, P, s', hloop, hB', hd', hA', hP', hgo, hgr, ha', _⟩ :=
-    children_park 99997 ws.length i (sortWatchers ws true) 0 [] [] S2 hB2 hd2 hA2 hord_nd
+    children_park 99997 ws1.length i (sortWatchers ws1 true) 0 [] [] S2 hB2 hd2 hA2 hord_nd
       (fun w hw => ⟨hord_mem w hw, hle w (hord_mem w hw)⟩) (by omega)
       (Or.inr (by obtain ⟨w, hw, hwl⟩ := hmiss; exact ⟨w, hperm.mem_iff.mpr hw, hwl⟩))
   have hpkne := pkFrames_fid_ne (i := i) (P := P) (fun p hp => ⟨(hB'.ids p hp).1, (hB'.ids p hp).2.1⟩)
+  have hwat1 : ({ a with slot := some "manage_watchers" } : Arbiter).watchers = ws1.map (·.uid) := by
+    show a.watchers = _
+    rw [hwat, huids]
   -- the step
   have hop : stepOp .check (updK Kernel.beginStep (⟨k, a, objs, ws, [], [], [], [], dv, i, log, false⟩ : State)).2 =
       ((), (⟨s'.k, s'.a, s'.objs, s'.ws,
         { fid := i + 1, k := .manageWatchersTail false, parent := .top i, armed := true } ::
-          { fid := i + 2, k := .multi ws.length results, parent := .frame (i + 1) 0, armed := true } :: pkFrames i P,
+          { fid := i + 2, k := .multi ws1.length results, parent := .frame (i + 1) 0, armed := true } :: pkFrames i P,
         s'.sleepers, [{ tid := i, cbs := [.release, .watch], armed := true }], s'.ready, s'.doneVals, s'.nextId, s'.log,
         s'.blocked⟩ : State)) := by
     simp only [stepOp, bind, clearDone, modS, updK, runK]
@@ -891,29 +905,28 @@ theorem check_parks_K (s : State) (hi : IdleK s) (hd : DatK s) (hle : ∀ w ∈ 
     have e1 : (100000 : Nat) = 99999 + 1 := rfl
     rw [e1, exec_call_mk]
     simp only [runCall, List.nil_append]
-    rw [manageWatchers_eq_K (exec 99999) _ _ ⟨rfl, hk.beginStep, hn, hall⟩ hstp hwat]
+    rw [manageWatchers_eq_K_gen (exec 99999) _ _ _ hstp hreap hd0 hwat1]
     rw [awaitMulti_ne _ _ hne]
     simp only [List.length_map, hord_len, List.nil_append]
-    have hS2 : (⟨k.beginStep.bump 1, { a with slot := some "manage_watchers" }, objs, ws,
+    have hS2 : (⟨K, { a with slot := some "manage_watchers" }, O, ws1,
         [{ fid := i + 1, k := .manageWatchersTail false, parent := .top i },
-         { fid := i + 1 + 1, k := .multi ws.length [], parent := .frame (i + 1) 0 }],
-        [], [{ tid := i, cbs := [.release] }], [], [], i + 1 + 2, log, false⟩ : State) = S2 := rfl
+         { fid := i + 1 + 1, k := .multi ws1.length [], parent := .frame (i + 1) 0 }],
+        [], [{ tid := i, cbs := [.release] }], [], [], i + 1 + 2, L1, false⟩ : State) = S2 := rfl
     rw [hS2]
     erw [hloop]
     simp only [armFrame, armTop, addDoneCallback, modS, bind, getS, hB'.frames, hB'.tops, List.map_cons, List.map_nil,
       List.find?_cons, decide_true, Option.isSome_some, if_true, topAddCb]
     have h1 : ¬ i + 1 = i + 1 + 1 := by omega
     have h2 : ¬ i + 2 = i + 1 := by omega
-    simp only [h1, h2, if_false, if_true, show i + 1 + 1 = i + 2 from rfl, List.nil_append, List.cons_append,
+    simp only [h1, h2, if_false, if_true, show i + 1 + 1 = i + 2 from rfl,
       map_arm_pkFrames (fun g hg => (hpkne g hg).1), map_arm_pkFrames (fun g hg => (hpkne g hg).2)]
     erw [if_pos (by simp [hB'.tops])]
     simp [modS]
   let F : State := ⟨s'.k, s'.a, s'.objs, s'.ws,
     { fid := i + 1, k := .manageWatchersTail false, parent := .top i, armed := true } ::
-      { fid := i + 2, k := .multi ws.length results, parent := .frame (i + 1) 0, armed := true } :: pkFrames i P,
+      { fid := i + 2, k := .multi ws1.length results, parent := .frame (i + 1) 0, armed := true } :: pkFrames i P,
     s'.sleepers, [{ tid := i, cbs := [.release, .watch], armed := true }], s'.ready, s'.doneVals, s'.nextId, s'.log,
     s'.blocked⟩
-  have hFb : F.blocked = false := hd'.1
   have hstep : stepM .check (⟨k, a, objs, ws, [], [], [], [], dv, i, log, false⟩ : State) = ((), F) := by
     rw [stepM_eq _ _ rfl, hop]
     have hs : settle 100000 F = ((), F) := settle_nil 99999 F hB'.ready
@@ -922,18 +935,17 @@ theorem check_parks_K (s : State) (hi : IdleK s) (hd : DatK s) (hle : ∀ w ∈ 
     unfold step; rw [hstep]
   rw [hres]
   obtain ⟨hnF, hnS⟩ := pkIds_nodup_of_sorted P (fun p hp => ⟨(hB'.ids p hp).2.1, (hB'.ids p hp).2.2.1⟩) hB'.sorted
-  have hgr' : Grow ws s'.ws := hgr
+  have hgr' : Grow ws1 s'.ws := hgr
+  have huid' : ∀ {x y : List Watcher}, Grow x y → y.map (·.uid) = x.map (·.uid) := by
+    intro x y h
+    induction h with
+    | nil => rfl
+    | cons w e _ ih => simp [ih]
   have hwat' : s'.a.watchers = s'.ws.map (·.uid) := by
     rw [ha']
     show a.watchers = _
-    rw [hwat]
-    -- the watchers keep their identities
-    have : ∀ {x y : List Watcher}, Grow x y → y.map (·.uid) = x.map (·.uid) := by
-      intro x y h
-      induction h with
-      | nil => rfl
-      | cons w e _ ih => simp [ih]
-    exact (this hgr').symm
+    rw [hwat, ← huids]
+    exact (huid' hgr').symm
   refine ⟨results, P, ⟨⟨pkFrames i P, rfl, List.Perm.refl _⟩, ?_, rfl, hB'.ready, hB'.count, hB'.units, ?_, hnF, hnS,
     hB'.slot, hB'.loopStop, hB'.stopping, hB'.restarting, hwat', trivial⟩, ?_, ?_, hP', ?_, hgr'⟩
   · show s'.sleepers.Perm _
@@ -948,6 +960,23 @@ theorem check_parks_K (s : State) (hi : IdleK s) (hd : DatK s) (hle : ∀ w ∈ 
     have : toGo P F = toGo P s' := rfl
     rw [this, hgo]
     simp [toGo, S2]
+
+/-- **the periodic check with several watchers, at least one of them missing workers**: nothing to reap; every
+    watcher that misses workers spawns its first missing one and parks its `spawn_processes` loop on its own timer;
+    the complete ones are done; the check stays parked with the slot taken; as many timer firings remain as
+    workers were missing -/
+theorem check_parks_K (s : State) (hi : IdleK s) (hd : DatK s) (hle : ∀ w ∈ s.ws, w.pids.length ≤ w.np.toNat)
+    (hmiss : ∃ w ∈ s.ws, w.pids.length < w.np.toNat) :
+    ∃ results P, ParkedK s.ws.length s.nextId results P (step s .check) ∧ DatK (step s .check) ∧
+      Acct [] P (step s .check) ∧ P ≠ [] ∧ toGo P (step s .check) = (s.ws.map missing).sum ∧ Grow s.ws (step s .check).ws := by
+  obtain ⟨hb, hk, hn, hall⟩ := hd
+  have hreap : arbReapProcesses (checkEntry s) =
+      ((), { checkEntry s with k := s.k.beginStep.bump 1, objs := s.objs, ws := s.ws, log := s.log }) := by
+    rw [arbReapProcesses_still (checkEntry s) hb hk.beginStep]
+    rfl
+  obtain ⟨results, P, h1, h2, h3, h4, h5, h6⟩ := check_parks_K_gen s hi hb (s.k.beginStep.bump 1) s.objs s.ws s.log hreap
+    ⟨hb, hk.beginStep.bump 1, hn, hall⟩ rfl hle hmiss
+  exact ⟨results, P, h1, h2, h3, h4, h5, h6⟩
 
 /-! ## Part 4: the check when no watcher misses a worker -/
 
@@ -1047,76 +1076,96 @@ theorem children_full (n K i : Nat) : ∀ (us : List Watcher) (idx : Nat) (resul
       rw [hc]
       simp [s1, State.bump, Kernel.bump_bump]
 
-/-- **the periodic check with several watchers, none of them missing a worker**: it completes within the step
-    and changes nothing but the kernel's call counter -/
-theorem check_idle_K (s : State) (hi : IdleK s) (hd : DatK s) (hfull : ∀ w ∈ s.ws, w.pids.length = w.np.toNat)
-    (hne : s.ws ≠ []) :
-    IdleK (step s .check) ∧ DatK (step s .check) ∧ (step s .check).ws = s.ws ∧ (step s .check).log = s.log := by
+/-- **the periodic check with several watchers, none of them missing a worker, after whatever
+    `Arbiter.reap_processes` did**: it completes within the step; besides what the reaping changed only the kernel's
+    call counter moves -/
+theorem check_idle_K_gen (s : State) (hi : IdleK s) (hb : s.blocked = false)
+    (K : Kernel) (O : List PObj) (ws1 : List Watcher) (L1 : List Obs)
+    (hreap : arbReapProcesses (checkEntry s) = ((), { checkEntry s with k := K, objs := O, ws := ws1, log := L1 }))
+    (hd : DatK { checkEntry s with k := K, objs := O, ws := ws1, log := L1 }) (huids : ws1.map (·.uid) = s.ws.map (·.uid))
+    (hfull : ∀ w ∈ ws1, w.pids.length = w.np.toNat) (hne : ws1 ≠ []) :
+    IdleK (step s .check) ∧ DatK (step s .check) ∧ (step s .check).ws = ws1 ∧ (step s .check).log = L1 := by
   have hd0 := hd
-  obtain ⟨hb, hk, hn, hall⟩ := hd
+  obtain ⟨_, hk, hn, hall⟩ := hd
   obtain ⟨hfr, hsl, htops, hrd, hslot, hls, hstp, hrst, hwat⟩ := hi
   obtain ⟨k, a, objs, ws, frames, sleepers, tops, ready, dv, i, log, blocked⟩ := s
-  simp only at hb hk hn hall hfr hsl htops hrd hslot hls hstp hrst hwat hfull hne
+  simp only at hb hfr hsl htops hrd hslot hls hstp hrst hwat huids
   subst hb hfr hsl htops hrd
-  have hperm := sortWatchers_perm ws true
-  have hord_mem : ∀ w ∈ sortWatchers ws true, w ∈ ws := fun w hw => hperm.mem_iff.mp hw
-  have hord_len : (sortWatchers ws true).length = ws.length := hperm.length_eq
-  have hordne : sortWatchers ws true ≠ [] := by
+  simp only [checkEntry] at hreap hd0 hk hn hall
+  have hperm := sortWatchers_perm ws1 true
+  have hord_mem : ∀ w ∈ sortWatchers ws1 true, w ∈ ws1 := fun w hw => hperm.mem_iff.mp hw
+  have hord_len : (sortWatchers ws1 true).length = ws1.length := hperm.length_eq
+  have hordne : sortWatchers ws1 true ≠ [] := by
     intro h
     have := congrArg List.length h
     rw [hord_len] at this
     exact hne (List.length_eq_zero_iff.mp this)
-  have hcne : (sortWatchers ws true).map (fun w => Call.manageProcesses w.uid) ≠ [] := by
+  have hcne : (sortWatchers ws1 true).map (fun w => Call.manageProcesses w.uid) ≠ [] := by
     intro h
     exact hordne (List.map_eq_nil_iff.mp h)
-  let S2 : State := ⟨k.beginStep.bump 1, { a with slot := some "manage_watchers" }, objs, ws,
+  let S2 : State := ⟨K, { a with slot := some "manage_watchers" }, O, ws1,
     [{ fid := i + 1, k := .manageWatchersTail false, parent := .top i },
-     { fid := i + 2, k := .multi ws.length [], parent := .frame (i + 1) 0 }], [],
-    [{ tid := i, cbs := [.release] }], [], [], i + 3, log, false⟩
-  have hB2 : Building ws.length i 0 [] [] S2 :=
+     { fid := i + 2, k := .multi ws1.length [], parent := .frame (i + 1) 0 }], [],
+    [{ tid := i, cbs := [.release] }], [], [], i + 3, L1, false⟩
+  have hB2 : Building ws1.length i 0 [] [] S2 :=
     ⟨rfl, rfl, rfl, rfl, rfl, rfl, (fun r hr => by cases hr), Nat.le_refl _, (fun p hp => by cases hp), List.Pairwise.nil, rfl,
       hls, hstp, hrst⟩
-  have hd2 : DatK S2 := ⟨rfl, hk.beginStep.bump 1, hn, hall⟩
-  obtain ⟨c, hloop⟩ := children_full 99995 ws.length i (sortWatchers ws true) 0 [] S2 hB2 hd2
+  have hd2 : DatK S2 := ⟨rfl, hk, hn, hall⟩
+  have hwat1 : ({ a with slot := some "manage_watchers" } : Arbiter).watchers = ws1.map (·.uid) := by
+    show a.watchers = _
+    rw [hwat, huids]
+  obtain ⟨c, hloop⟩ := children_full 99995 ws1.length i (sortWatchers ws1 true) 0 [] S2 hB2 hd2
     (fun w hw => ⟨hord_mem w hw, hfull w (hord_mem w hw)⟩) (by omega) hordne
   have hstep : stepM .check (⟨k, a, objs, ws, [], [], [], [], dv, i, log, false⟩ : State) =
-      ((), ⟨(k.beginStep.bump 1).bump c, { a with slot := none }, objs, ws, [], [], [], [], [(i, Val.unit)], i + 3, log, false⟩) := by
+      ((), ⟨K.bump c, { a with slot := none }, O, ws1, [], [], [], [], [(i, Val.unit)], i + 3, L1, false⟩) := by
     rw [stepM_eq _ _ rfl]
     have hop : stepOp .check (updK Kernel.beginStep (⟨k, a, objs, ws, [], [], [], [], dv, i, log, false⟩ : State)).2 =
-        ((), ⟨(k.beginStep.bump 1).bump c, { a with slot := none }, objs, ws, [], [], [],
-          [.topCb .watch .unit], [(i, Val.unit)], i + 3, log, false⟩) := by
+        ((), ⟨K.bump c, { a with slot := none }, O, ws1, [], [], [],
+          [.topCb .watch .unit], [(i, Val.unit)], i + 3, L1, false⟩) := by
       simp only [stepOp, bind, clearDone, modS, updK, runK]
       rw [syncCoroutine_free _ _ _ hrst hslot]
       simp only [fuelDefault]
       have e1 : (100000 : Nat) = 99999 + 1 := rfl
       rw [e1, exec_call_mk]
       simp only [runCall, List.nil_append]
-      rw [manageWatchers_eq_K (exec 99999) _ _ ⟨rfl, hk.beginStep, hn, hall⟩ hstp hwat]
+      rw [manageWatchers_eq_K_gen (exec 99999) _ _ _ hstp hreap hd0 hwat1]
       rw [awaitMulti_ne _ _ hcne]
       simp only [List.length_map, hord_len, List.nil_append]
-      have hS2 : (⟨k.beginStep.bump 1, { a with slot := some "manage_watchers" }, objs, ws,
+      have hS2 : (⟨K, { a with slot := some "manage_watchers" }, O, ws1,
           [{ fid := i + 1, k := .manageWatchersTail false, parent := .top i },
-           { fid := i + 1 + 1, k := .multi ws.length [], parent := .frame (i + 1) 0 }],
-          [], [{ tid := i, cbs := [.release] }], [], [], i + 1 + 2, log, false⟩ : State) = S2 := rfl
+           { fid := i + 1 + 1, k := .multi ws1.length [], parent := .frame (i + 1) 0 }],
+          [], [{ tid := i, cbs := [.release] }], [], [], i + 1 + 2, L1, false⟩ : State) = S2 := rfl
       rw [hS2]
       erw [hloop]
       simp [S2, armFrame, armTop, addDoneCallback, modS, bind, getS, enqueue]
     rw [hop]
     have e1 : (100000 : Nat) = 99999 + 1 := rfl
     have e2 : (99999 : Nat) = 99998 + 1 := rfl
-    have hs : settle 100000 (⟨(k.beginStep.bump 1).bump c, { a with slot := none }, objs, ws, [], [], [],
-          [.topCb .watch .unit], [(i, Val.unit)], i + 3, log, false⟩ : State) =
-        ((), ⟨(k.beginStep.bump 1).bump c, { a with slot := none }, objs, ws, [], [], [], [], [(i, Val.unit)], i + 3, log, false⟩) := by
+    have hs : settle 100000 (⟨K.bump c, { a with slot := none }, O, ws1, [], [], [],
+          [.topCb .watch .unit], [(i, Val.unit)], i + 3, L1, false⟩ : State) =
+        ((), ⟨K.bump c, { a with slot := none }, O, ws1, [], [], [], [], [(i, Val.unit)], i + 3, L1, false⟩) := by
       rw [e1, settle_cons_mk]
       simp [runReady1, runTopCb, pure]
       rw [e2]
       exact settle_nil _ _ rfl
     rw [stepTail_eq _ (by rw [hs]; exact hls), hs]
   have hres : step (⟨k, a, objs, ws, [], [], [], [], dv, i, log, false⟩ : State) .check =
-      ⟨(k.beginStep.bump 1).bump c, { a with slot := none }, objs, ws, [], [], [], [], [(i, Val.unit)], i + 3, log, false⟩ := by
+      ⟨K.bump c, { a with slot := none }, O, ws1, [], [], [], [], [(i, Val.unit)], i + 3, L1, false⟩ := by
     unfold step; rw [hstep]
   rw [hres]
-  exact ⟨⟨rfl, rfl, rfl, rfl, rfl, hls, hstp, hrst, hwat⟩, ⟨rfl, (hk.beginStep.bump 1).bump c, hn, hall⟩, rfl, rfl⟩
+  exact ⟨⟨rfl, rfl, rfl, rfl, rfl, hls, hstp, hrst, by show a.watchers = _; rw [hwat, huids]⟩, ⟨rfl, hk.bump c, hn, hall⟩, rfl, rfl⟩
+
+/-- **the periodic check with several watchers, none of them missing a worker**: it completes within the step
+    and changes nothing but the kernel's call counter -/
+theorem check_idle_K (s : State) (hi : IdleK s) (hd : DatK s) (hfull : ∀ w ∈ s.ws, w.pids.length = w.np.toNat)
+    (hne : s.ws ≠ []) :
+    IdleK (step s .check) ∧ DatK (step s .check) ∧ (step s .check).ws = s.ws ∧ (step s .check).log = s.log := by
+  obtain ⟨hb, hk, hn, hall⟩ := hd
+  have hreap : arbReapProcesses (checkEntry s) =
+      ((), { checkEntry s with k := s.k.beginStep.bump 1, objs := s.objs, ws := s.ws, log := s.log }) := by
+    rw [arbReapProcesses_still (checkEntry s) hb hk.beginStep]
+    rfl
+  exact check_idle_K_gen s hi hb (s.k.beginStep.bump 1) s.objs s.ws s.log hreap ⟨hb, hk.beginStep.bump 1, hn, hall⟩ rfl hfull hne
 
 /-! ## Part 5: a timer fires — general lemmas -/
 
